@@ -5,7 +5,7 @@ trusted_base; conformance tests against the installed libraries live in vlib/con
 import z3
 from fractions import Fraction
 from .types import (NArr, SList, SDict, SSet, Rec, Opt, CList, FuncRef, ModRef, Unsupported, is_sym, R, I, B, S,
-                    TInt, TReal, TBool, slist_get, to_slist, key_sort_of)
+                    TInt, TReal, TBool, TObj, slist_get, to_slist, key_sort_of)
 from . import ops
 from .ops import F, b_and, b_or, b_not, truth, values_equal
 
@@ -275,6 +275,17 @@ def _type(eng, node, x):
 
 @reg("builtins.sorted")
 def _sorted(eng, node, x, key=None, reverse=False):
+    from .engine import BoundMethod
+    if isinstance(x, SDict) and isinstance(key, BoundMethod) and key.obj is x and key.name == "get" and not reverse \
+            and len(x.k.sorts()) == 1 and len(x.v.sorts()) == 1:
+        # sorted(d, key=d.get): the keys of d ordered by their values -- a ghost permutation of the key set, non-decreasing in the value
+        seq = eng.dict_keys(x)
+        i, j = z3.Int("_si"), z3.Int("_sj")
+        arr = seq.comps[0]
+        val = x.comps[0]
+        eng.assume(z3.ForAll([i, j], z3.Implies(z3.And(0 <= i, i < j, j < seq.n), val[arr[i]] <= val[arr[j]])))
+        eng.frame.env["_sorted_pos"] = eng.last_dict_pos        # ghost: position of a key in the sorted list
+        return seq
     items = eng.concrete_or_fail(x)
     if key is None and all(ops.is_concrete_num(i) or isinstance(i, str) for i in items):
         ks = [ops.q(i) if ops.is_concrete_num(i) else i for i in items]
@@ -900,3 +911,11 @@ def _nx_get_node_attributes(eng, node, graph, name):
 @reg("vermouth.molecule.Interaction")
 def _interaction(eng, node, atoms=(), parameters=(), meta=None):
     return Rec("Interaction", {"atoms": tuple(eng.concrete_or_fail(atoms))})
+
+
+@reg("pathlib.Path")
+def _path(eng, node, p=None):
+    """a path object: only `.suffix` (an unknown string) is modelled"""
+    if isinstance(p, Rec) and p.cls == "Path":
+        return p
+    return Rec("Path", {"suffix": z3.FreshConst(z3.StringSort(), "suffix"), "_id": z3.FreshConst(TObj.sort, "path")})
